@@ -198,7 +198,7 @@ fn time_selector_intervals_1() {
     selector_body::<1>()
 }
 
-//@H props=C01,C04 tier=deep kind=bounded cap=3000 mem=medium bound="2 time spans (fixed times)" domain="start 00:00..=24:00, end 00:00..=48:00, query minute 00:00..23:59"
+//@H props=C01,C04 tier=thorough kind=bounded cap=3000 mem=medium bound="2 time spans (fixed times)" domain="start 00:00..=24:00, end 00:00..=48:00, query minute 00:00..23:59"
 #[cfg_attr(kani, kani::proof)]
 #[cfg_attr(kani, kani::unwind(5))]
 #[cfg_attr(kani, kani::stub(core::slice::sort::unstable::sort, sort_model))]
